@@ -147,6 +147,16 @@ REGISTRY = {
         "rule": "tables of 2-8 samples; delete sets: first, last, adjacent block, alternating, random subset, shuffled order, all (refused), unknown (refused), partly unknown (refused), none (refused); non-trivial = accepted deletions",
         "trusted_base": COMMON_TRUST, "assumptions": [EXTERNAL],
     },
+    "C09": {
+        "level": "proof", "modules": ["SkaModel.Props.C09"], "gen": [], "cli": [cli.c09_cli],
+        "rule": "random tables for all 30 k x both widths (0-200 rows, 1-5 samples, all stored symbols; k>=33 families whose k-mers all fit in 64 bits; thorough: thousands of k-mers over several compression frames): saved by the real code, raw CBOR decoded + re-encoded by the model byte for byte; CLI merge in both orders and map/weed/nk/distance/align on 64-bit-fitting k>=33 files; non-trivial = tables with at least one k-mer",
+        "trusted_base": COMMON_TRUST, "assumptions": [EXTERNAL, "Snappy compression (write side) and serde derive are exercised, not modelled"],
+    },
+    "C19": {
+        "level": "fault_enumeration", "modules": ["SkaModel.Props.C19"], "gen": [], "cli": [cli.c19_cli],
+        "rule": "complete enumeration of every truncation point and every single-bit flip of concrete .skf files (64- and 128-bit; thorough: also a multi-frame file at byte stride 9) through the real loader with the lib.rs dispatch; each fault is a distinct non-trivial case; the frame-decoder model is cross-checked against snap on a subset; random faults through every CLI subcommand",
+        "trusted_base": COMMON_TRUST, "assumptions": [EXTERNAL, "flips inside compressed payloads / chunk type / length bytes are decided per file by enumeration, not by theorem (2^-32 CRC events)"],
+    },
     "C10": {
         "level": "proof", "modules": ["SkaModel.Props.C10"], "gen": ["C10"],
         "rule": "random histories (length 1-8) over merge, delete, weed, reverse weed, frequency/constant/ambiguity filtering with and without --filter-ambig-as-missing/--ambig-mask, reload; every step through generic_modes with save+load; observers nk, 3 aligns, distance on the final file; non-trivial = distinct histories that ran to the end",
